@@ -16,17 +16,24 @@ def opt(x):
     return "~" if x is None else core.hx(x)
 
 
-def render(trace, log_size=0, hidden=(), spacing=100_000, ka=30_000_000, join=2_000_000, read=1_000_000, end_t=None):
+def render(trace, log_size=0, hidden=(), spacing=100_000, ka=30_000_000, join=2_000_000, read=1_000_000, end_t=None, snapshots=True):
     out = [f"params {spacing} {ka} {join} {read} {log_size} {','.join(hidden) if hidden else '-'}"]
     idx = []          # trace seq per emitted event line (for reporting)
     calls = {}
     rets = {e["call"]: e for e in trace if e["k"] == "ret"}
     opened = any(e["k"] == "thread_exit" and e["th"].startswith("R") for e in trace) or any(e["th"].startswith("R") for e in trace)
+    submitting = {}
     for e in trace:
         k = e["k"]
         t = e["t"]
         line = None
-        if k == "call":
+        if k == "call" and e["op"][0] in ("put", "get", "raw"):
+            submitting[e["th"]] = True
+        elif k == "ret" and e["op"][0] in ("put", "get", "raw"):
+            submitting[e["th"]] = False
+        if k == "qput" and submitting.get(e["th"]):
+            line = f"out enq {tid_of(e['th'])}"
+        elif k == "call":
             op = e["op"]
             calls[e["seq"]] = e
             tid = tid_of(e["th"])
@@ -51,7 +58,7 @@ def render(trace, log_size=0, hidden=(), spacing=100_000, ka=30_000_000, join=2_
                 line = f"out ret {tid}"
             elif op[0] == "close":
                 line = f"out ret {tid}" if e["exc"] is None else f"out craise {tid}"
-            elif op[0] == "snap" and e.get("res") is not None:
+            elif op[0] == "snap" and e.get("res") is not None and snapshots and "clock" not in hidden:
                 ents = []
                 for x in e["res"]:
                     parts = x.split(" ", 2)
